@@ -14,11 +14,12 @@ REPLAYS = os.path.join(VERIF, "work", "replays")
 NPROC = min(16, os.cpu_count() or 4)
 
 TRUSTED_BASE = [
-    "Coq 8.16.1 kernel (coqc; coqchk in the thorough tier); vm_compute for correspondence evaluation and witnesses; no native_compute, no extraction",
-    "axioms: none (every property theorem prints 'Closed under the global context'; audited on every run)",
-    "hand-written Gallina model coq/theories/{Plog,Sem,Poly,Compress,Bridge,Config,Json,Heap}.v, tied to /repo only by the correspondence check (strength bounded by the generators, see input_distribution)",
-    "harness: Python->Coq term printer (harness/common.py), canonicalisation in coq/theories/Corr.v, id oracle (observed _id_generator table)",
-    "modelled, not verified: puan-rspy row generation and bit allocation, numpy int64/float64 arithmetic (unbounded Z in the model), CPython hash of ints/strings/tuples, graphlib cycle detection, json.dumps/loads, pickle/gzip/base64, maz combinators",
+    "Coq 8.16.1 kernel (coqc; coqchk -o in the thorough tier, axiom listing must be <none>); vm_compute for correspondence evaluation, _refuted witnesses and non-vacuity examples; no native_compute, no extraction",
+    "axioms: none (every theorem in Properties/*.v prints 'Closed under the global context'; audited on every run; all .v sources scanned for Admitted/admit/Axiom/Parameter/Conjecture/Variable-outside-Section/Unset Guard/bypass_check/type-in-type)",
+    "hand-written Gallina models coq/theories/{Plog,Cons,Cic,Config,Json,Errors,Poly,Compress,ConfigObj,Bridge,Heap,Pack}.v with specifications in Sem.v / *Spec.v, tied to /repo only by the correspondence checks in Corr*.v (strength bounded by the generators, see input_distribution)",
+    "harness: Python->Coq term printers, the check_* canonicalisations, the id oracle (observed AtLeast._id_generator table), the compression recorder (C15)",
+    "modelled, not verified: puan-rspy row generation and bit allocation (compared with the wheel on every run), numpy int64/float64 arithmetic (unbounded Z in the model; floor(a/b) as Z.div), CPython hash of ints/strings/tuples (string and tuple hashing assumed injective), graphlib cycle detection, json.dumps/loads (identity on the JSON AST), pickle/gzip/base64 (abstract codec hypothesis in C17), maz combinators, hashlib.sha256 (theorems hold for every id generator)",
+    "Section hypotheses named in the statements that use them: is_argmax solver (C15_exact*, shown satisfiable by C15_exact_solver_exists), codec_ok (C17_roundtrip)",
 ]
 
 # ----------------------------------------------------------------------------- Coq terms
